@@ -525,4 +525,111 @@ theorem sim_quiet {cfg : Cfg} {a : Spec.A} {s s' : State} (hs : Sim cfg a s) (ao
     rw [e'.2]; exact hs.logConn u m hm (by rw [← e'.1]; exact h1)
   · exact n.logSub.nodup hs.logNodup
 
+/-! ## the simulation on a set of connections
+
+While a CONNECT request is handled the record of the requesting connection is rewritten step by step (fields first,
+`connected` and the logger set last) with nested activity in between; the relation then holds for every *other*
+connection, and is re-established for the requester at the end. -/
+
+/-- `Sim` with the per-connection clauses restricted to the connections satisfying `P` -/
+structure SimOn (P : Nat → Prop) (cfg : Cfg) (a : Spec.A) (s : State) : Prop where
+  uids : a.mods.map (·.uid) = (List.range a.nAccepted).map (· + 1)
+  nacc : a.nAccepted = s.nextUid
+  fail : a.fail = s.fail
+  buf : a.buf = s.buf
+  live : ∀ u, P u → u ≠ 0 → ((a.live u).isSome ↔ (s.find u).isSome)
+  mods : ∀ u am m, P u → a.live u = some am → s.find u = some m → SimMod cfg am m
+  w : ∀ u, P u → (a.live u).isSome → (u ∈ a.w ↔ u ∈ s.wlist)
+  logIn : ∀ u m, P u → s.find u = some m → m.isLogger = true → u ∈ s.loggers
+  logOut : ∀ u m, P u → u ∈ s.loggers → s.find u = some m → m.isLogger = true
+  logConn : ∀ u m, P u → s.find u = some m → m.isLogger = true → m.connected = true
+  logNodup : s.loggers.Nodup
+
+theorem Sim.on {cfg : Cfg} {a : Spec.A} {s : State} (h : Sim cfg a s) (P : Nat → Prop) : SimOn P cfg a s :=
+  ⟨h.uids, h.nacc, h.fail, h.buf, fun u _ => h.live u, fun u am m _ => h.mods u am m, fun u _ => h.w u,
+   fun u m _ => h.logIn u m, fun u m _ => h.logOut u m, fun u m _ => h.logConn u m, h.logNodup⟩
+
+theorem SimOn.all {cfg : Cfg} {a : Spec.A} {s : State} (h : SimOn (fun _ => True) cfg a s) : Sim cfg a s :=
+  ⟨h.uids, h.nacc, h.fail, h.buf, fun u => h.live u trivial, fun u am m => h.mods u am m trivial, fun u => h.w u trivial,
+   fun u m => h.logIn u m trivial, fun u m => h.logOut u m trivial, fun u m => h.logConn u m trivial, h.logNodup⟩
+
+/-- `sim_quiet` on a set of connections -/
+theorem simOn_quiet {P : Nat → Prop} {cfg : Cfg} {a : Spec.A} {s s' : State} (hs : SimOn P cfg a s) (ao : AllOpen s)
+    (ao' : AllOpen s') (n : Nest s s') (j : J s') (ext : List Ev) (he : s'.out = s.out ++ ext) :
+    SimOn P cfg (Spec.applyDepartures a ext) s' := by
+  obtain ⟨hb, hfl, hw, hna, herr⟩ := Spec.applyDepartures_core a ext
+  obtain ⟨ext', he', _, hcl⟩ := n.ext
+  have hee : ext' = ext := List.append_cancel_left (he'.symm.trans he)
+  subst hee
+  have gone := closed_gone ao' j ext' he
+  have live' : ∀ u, (Spec.applyDepartures a ext').live u = if (Spec.closes ext').contains u then none else a.live u :=
+    Spec.applyDepartures_live a ext'
+  refine ⟨by rw [Spec.applyDepartures_uids, hna]; exact hs.uids, by rw [hna, n.nuid]; exact hs.nacc,
+    by rw [hfl, n.fail]; exact hs.fail, by rw [hb, n.buf]; exact hs.buf, ?_, ?_, ?_, ?_, ?_, ?_, ?_⟩
+  · intro u hp hu
+    rw [live']
+    by_cases hc : (Spec.closes ext').contains u = true
+    · have := gone u ((mem_closes ext' u).mp (by simpa using hc))
+      simp only [hc, if_true, this, Option.isSome_none]
+    · simp only [hc, Bool.false_eq_true, if_false]
+      rw [hs.live u hp hu]
+      constructor
+      · intro h
+        obtain ⟨m, hm⟩ := Option.isSome_iff_exists.mp h
+        have hop : openIn s u := ⟨m, hm, ao u m hm⟩
+        by_cases ho' : openIn s' u
+        · obtain ⟨m', hm', _⟩ := ho'; simp [hm']
+        · exact absurd ((mem_closes ext' u).mpr (hcl u hop ho')) (by simpa using hc)
+      · intro h
+        obtain ⟨m', hm'⟩ := Option.isSome_iff_exists.mp h
+        obtain ⟨m, hm, _⟩ := n.surv u m' hm' (ao' u m' hm')
+        simp [hm]
+  · intro u am m' hp hl hm'
+    rw [live'] at hl
+    split at hl
+    · cases hl
+    · obtain ⟨m, hm, e⟩ := n.surv u m' hm' (ao' u m' hm')
+      exact simMod_core (hs.mods u am m hp hl hm) e
+  · intro u hp hl
+    rw [live'] at hl
+    split at hl
+    · cases hl
+    · rw [hw, n.wlist]; exact hs.w u hp hl
+  · intro u m' hp hm' h1
+    obtain ⟨m, hm, e⟩ := n.surv u m' hm' (ao' u m' hm')
+    have e' : m'.isLogger = m.isLogger := (core_fields e).2.2.1
+    exact n.logKeep u (hs.logIn u m hp hm (by rw [← e']; exact h1)) ⟨m', hm', ao' u m' hm'⟩
+  · intro u m' hp hu hm'
+    obtain ⟨m, hm, e⟩ := n.surv u m' hm' (ao' u m' hm')
+    have e' : m'.isLogger = m.isLogger := (core_fields e).2.2.1
+    rw [e']; exact hs.logOut u m hp (n.logSub.subset hu) hm
+  · intro u m' hp hm' h1
+    obtain ⟨m, hm, e⟩ := n.surv u m' hm' (ao' u m' hm')
+    have e' : m'.isLogger = m.isLogger ∧ m'.connected = m.connected := by
+      unfold Module.core at e; cases m; cases m'; simp_all
+    rw [e'.2]; exact hs.logConn u m hp hm (by rw [← e'.1]; exact h1)
+  · exact n.logSub.nodup hs.logNodup
+
+/-- the event part of `Nest`: also satisfied by steps that rewrite fields of a table entry without opening or closing
+    anything -/
+def Evt (s s' : State) : Prop :=
+  ∃ ext, s'.out = s.out ++ ext ∧ (∀ u, Ev.rd u ∉ ext) ∧ (∀ u, openIn s u → ¬ openIn s' u → Ev.close u ∈ ext)
+
+theorem Nest.evt {s s' : State} (h : Nest s s') : Evt s s' := h.ext
+
+theorem Evt.trans {a b c : State} (h1 : Evt a b) (h2 : Evt b c) : Evt a c := by
+  obtain ⟨e1, o1, r1, c1⟩ := h1
+  obtain ⟨e2, o2, r2, c2⟩ := h2
+  refine ⟨e1 ++ e2, by rw [o2, o1, List.append_assoc], fun u hu => ?_, fun u ha hc => ?_⟩
+  · rcases List.mem_append.mp hu with h | h
+    · exact r1 u h
+    · exact r2 u h
+  · by_cases hb : openIn b u
+    · exact List.mem_append.mpr (Or.inr (c2 u hb hc))
+    · exact List.mem_append.mpr (Or.inl (c1 u ha hb))
+
+/-- a step that keeps the log and the set of open connections -/
+theorem evt_same {s s' : State} (ho : s'.out = s.out) (hop : ∀ u, openIn s u → openIn s' u) : Evt s s' :=
+  ⟨[], by simp [ho], by simp, fun u h1 h2 => absurd (hop u h1) h2⟩
+
 end Pyrtma.Mgr
